@@ -199,9 +199,18 @@ def generate_c09():
     if [s for s, _ in hval] != ['broadcast', 'broadcast'] or any(a[0] != 'phi' for _, a in hval):
         raise TranslateError('ElementH1.gbasis value: ' + repr(hval))
     scale = '1.0 / np.abs(detDF) * orient[:, None]'
-    chk(('ElementHdiv', 'value'), [('ijkl,jl,kl->ikl', ['DF', 'phi', scale]), ('ijkl,jkl,kl->ikl', ['DF', 'phi', scale])])
     divx = 'dphi / (np.abs(detDF) * orient[:, None])'
-    chk(('ElementHdiv', 'div'), [('expr', [divx])] * 2)
+    # ElementHdiv: recorded, not raised — the tie lemma tie_hdiv_sites (dyn/C09Pull.v) states that the value is the einsum of
+    # DF, phi and a scale that carries BOTH the cell index k and the point index l (det DF taken at the same point as DF
+    # and phi) with exactly the scale / div expressions the theorems are about
+    hv = sorted(sites.get(('ElementHdiv', 'value')) or [])
+    hd_ = sorted(sites.get(('ElementHdiv', 'div')) or [])
+    hdiv_expected = (hv == sorted([('ijkl,jl,kl->ikl', ['DF', 'phi', scale]), ('ijkl,jkl,kl->ikl', ['DF', 'phi', scale])])
+                     and hd_ == [('expr', [divx])] * 2)
+    hdiv_pointwise = bool(hv) and all(sub != 'expr' and sub != 'broadcast' and sub.split('->')[0].split(',')[-1] == 'kl'
+                                      for sub, _ in hv)
+    if not hv or not hd_:
+        raise TranslateError('ElementHdiv.gbasis: value / div not found')
     chk(('ElementHcurl', 'value'), [('ijkl,il,k->jkl', ['invDF', 'phi', 'orient']), ('ijkl,ikl,k->jkl', ['invDF', 'phi', 'orient'])] * 2)
     cscale = '1.0 / detDF * orient[:, None]'
     curl2 = 'dphi / detDF * orient[:, None]'
@@ -221,6 +230,8 @@ def generate_c09():
                                      ('ijkl,jakl,bakl,kl->ibkl', ['DF', 'phi', 'DF', mscale])])
     parts.append(einsum_to_coq('gen_matrix_value2', 'ijkl,jal,bakl,kl->ibkl', 2, ['DF', 'phi', 'DF2', 'c']))
     parts.append(f'Definition gen_matrix_scale (absdet : Q) : Q := {ex.tr(ast.parse(mscale, mode="eval").body)}%Q.')
+    parts.append(f'Definition gen_hdiv_scale_pointwise : bool := {"true" if hdiv_pointwise else "false"}.   (* scale operand indexed by cell AND point *)')
+    parts.append(f'Definition gen_hdiv_sites_as_expected : bool := {"true" if hdiv_expected else "false"}.')
     parts.append(f'Definition gen_hdiv_scale (absdet orient : Q) : Q := {ex.tr(ast.parse(scale, mode="eval").body)}%Q.')
     parts.append(f'Definition gen_hdiv_div (dphi absdet orient : Q) : Q := {ex.tr(ast.parse(divx, mode="eval").body)}%Q.')
     parts.append(f'Definition gen_hcurl_scale (detDF orient : Q) : Q := {ex.tr(ast.parse(cscale, mode="eval").body)}%Q.')
